@@ -70,6 +70,14 @@ claimed["C02"] = dict(
     technique="deterministic simulation: stored-data fault injection (crash images, bit rot, torn and misdirected writes) under simulated short-reading readers, with deterministic step and allocation budgets",
 )
 
+claimed["C16"] = dict(
+    level="exploration",
+    text="Seeded search over interleavings: 2..6 tasks run tape-chosen read-only operations on one shared font under a deterministic scheduler in which exactly one task runs at a time and the tape picks the next one at operation boundaries, simulated Write calls and sampled function-entry/loop steps. The baton is passed with raw pipe system calls from uninstrumented code, which the Go race detector does not model as synchronisation, so the worker (built with -race) still reports every unsynchronised conflicting access between tasks while the execution replays exactly. Every concurrent result is compared with the same call run alone on an independently built identical font, and the shared font's digest with its value before.",
+    design="3 C16",
+    note="Trusted: the Go race detector (bounded access history), package sched (200 lines, itself free of runtime-instrumented constructs), digests of results. Mid-operation switching matters only for interference through synchronised shared state; unsynchronised sharing is reported without needing the unlucky interleaving.",
+    technique="deterministic simulation: tape-driven serial scheduler of goroutines (raw-pipe baton invisible to the race detector) + Go race detector as monitor + solo-run reference results",
+)
+
 pending = {k: PENDING_REASON for k in ["C01", "C02", "C03", "C07", "C15", "C16", "C18", "C19", "C20"] if k not in claimed}
 
 not_applicable = {
